@@ -27,6 +27,7 @@
 #include "hwloc.h"
 #include "private/private.h"
 #include "rng.h"
+#include <sys/prctl.h>
 #include <stdio.h>
 #include <string.h>
 #include <errno.h>
@@ -60,11 +61,11 @@ static unsigned long st[64];
 enum { S_OPS, S_TOPO, S_TOPO_THIS, S_TOPO_DUMMY, S_STUB, S_CALL_STUB, S_CALL_DUMMY, S_CALL_NATIVE, S_RC_OK, S_EINVAL,
        S_ENOSYS, S_OTHERERR, S_HOOKLOG0, S_HOOKLOG1, S_HOOKLOG2, S_SYSLOG0, S_SYSLOGN, S_SET_EMPTY, S_SET_INF,
        S_SET_OUT, S_SET_COVER, S_SET_VALID, S_SET_DISALLOWED, S_FLAG_UNKNOWN, S_POLICY_BAD, S_LIVE, S_LOADCHECK,
-       S_LEN0, S_NULLPTR, S_FALLTHROUGH, S_DIRTY_OUT, S_LOADCHECK_HELPER, S_N };
+       S_LEN0, S_NULLPTR, S_FALLTHROUGH, S_DIRTY_OUT, S_LOADCHECK_HELPER, S_LIVE_PROCSTAT, S_N };
 static const char *st_names[S_N] = { "ops", "topo", "topo_thissystem", "topo_dummy", "stub_tables", "call_stub", "call_dummy",
   "call_native", "rc_ok", "rc_einval", "rc_enosys", "rc_othererr", "hooklog_0", "hooklog_1", "hooklog_2plus", "syslog_0",
   "syslog_nonempty", "set_empty", "set_infinite", "set_out_of_range", "set_covers_topology", "set_valid", "set_disallowed_bits",
-  "flags_unknown_bits", "policy_invalid", "live_roundtrips", "loadchecks", "len_zero", "null_pointer", "enosys_fallthrough", "dirty_output_bitmaps", "loadchecks_with_second_thread" };
+  "flags_unknown_bits", "policy_invalid", "live_roundtrips", "loadchecks", "len_zero", "null_pointer", "enosys_fallthrough", "dirty_output_bitmaps", "loadchecks_with_second_thread", "live_procstat_lastcpu" };
 
 static const char *errname_of(int e) {
   switch (e) {
@@ -533,6 +534,22 @@ static void do_live(const char *subset, unsigned flags) {
   raw_getaff(raw);
   int rc3 = hwloc_get_last_cpu_location(T, last, HWLOC_CPUBIND_THREAD);
   int lastin = rc3 == 0 && !hwloc_bitmap_iszero(last) && hwloc_bitmap_isincluded(last, got);
+  /* the same question through the /proc/<tid>/stat readers (flags 0 and PROCESS, and the by-pid entry point): this process has one
+   * thread here, so the answer must lie inside the binding as well - whatever the command name of the task looks like (the stat line
+   * carries it between parentheses: names with ")" and blanks are legal; C10-r8) */
+  { static const char *const names[] = { "verif-bind", "job (1) main", "a) b) c", ") ", "(", "x y", "))) 3 S 1" };
+    static unsigned turn; char old[32] = "";
+    prctl(PR_GET_NAME, old, 0, 0, 0);
+    prctl(PR_SET_NAME, names[turn++ % 7], 0, 0, 0);
+    static const int fl[] = { 0, HWLOC_CPUBIND_PROCESS };
+    for (unsigned k = 0; k < 3 && lastin; k++) {
+      hwloc_bitmap_fill(last);
+      int r = k < 2 ? hwloc_get_last_cpu_location(T, last, fl[k]) : hwloc_get_proc_last_cpu_location(T, getpid(), last, 0);
+      if (r != 0 || hwloc_bitmap_iszero(last) || !hwloc_bitmap_isincluded(last, got)) lastin = 0;
+    }
+    prctl(PR_SET_NAME, old, 0, 0, 0);
+    st[S_LIVE_PROCSTAT]++;
+  }
   hexfin(got, gx, sizeof gx); hexfin(raw, rx, sizeof rx);
   fprintf(fout, "rc=%d get=%s raw=%s lastin=%d\n", rc, rc2 == 0 ? gx : "fail", rx, lastin);
   slog_reset(); st[S_LIVE]++;
